@@ -90,17 +90,18 @@ Additional Inputs:
     info   -- if True, return information about the satisfied conditions"""
     # return the unsatisfied conditions
     if info == 'not':
-      return tuple(set([f for f in self if f not in self(solver, 'self')]))
-    # do some filtering...
-    stop = {}
-    [stop.update({f : f(solver, info)}) for f in self]
-    _all = all(stop.values())
+      met = self(solver, 'self')
+      return tuple(f for f in self if not any(f is g for g in met))
+    # do some filtering... (pair each condition with its own result, as
+    # compound conditions with the same members compare equal)
+    stop = [(f, f(solver, info)) for f in self]
+    _all = all(met for (f,met) in stop)
     # return T/F if the conditions are met
     if not info: return _all
     # return the satisfied conditions
-    if info == 'self': return tuple(set(stop.keys())) if _all else ()
+    if info == 'self': return tuple(f for (f,met) in stop) if _all else ()
     # return info about the satisfied conditions
-    return "; ".join(set("; ".join(stop.values()).split("; "))) if _all else ""
+    return "; ".join(set("; ".join(met for (f,met) in stop).split("; "))) if _all else ""
 
   def __repr__(self):
     return "When(%s)" % str(self[0])
@@ -159,18 +160,19 @@ Additional Inputs:
     info   -- if True, return information about the satisfied conditions"""
     # return the unsatisfied conditions
     if info == 'not':
-      return tuple(set([f for f in self if f not in self(solver, 'self')]))
-    # do some filtering...
-    stop = {}
-    [stop.update({f : f(solver, info)}) for f in self]
-    _any = any(stop.values())
+      met = self(solver, 'self')
+      return tuple(f for f in self if not any(f is g for g in met))
+    # do some filtering... (pair each condition with its own result, as
+    # compound conditions with the same members compare equal)
+    stop = [(f, f(solver, info)) for f in self]
+    _any = any(met for (f,met) in stop)
     # return T/F if the conditions are met
     if not info: return _any
-    [stop.pop(cond) for (cond,met) in tuple(stop.items()) if not met]
+    stop = [(f,met) for (f,met) in stop if met]
     # return the satisfied conditions
-    if info == 'self': return tuple(set(stop.keys()))
+    if info == 'self': return tuple(f for (f,met) in stop)
     # return info about the satisfied conditions
-    return "; ".join(set("; ".join(stop.values()).split("; ")))
+    return "; ".join(set("; ".join(met for (f,met) in stop).split("; ")))
 
   def __repr__(self):
     return "Or%s" % str(tuple([f for f in self]))
